@@ -31,7 +31,8 @@ Strings == [empty |-> [len |-> 0, kind |-> "ascii"], long300 |-> [len |-> 300, k
             \* upper and lower case, digits, blanks (leading / trailing), punctuation, a NUL byte
             mixed |-> [len |-> 19, kind |-> "mixed"]]
 Chains == {"empty", "long300", "utf8", "ethereum", "Ethereum", "mixed"}
-Addrs == {"empty", "0xabc", "utf8", "0xABCdef", "mixed"}
+\* "selfaddr": the destination address is the textual form of the sender's own address
+Addrs == {"empty", "0xabc", "utf8", "0xABCdef", "mixed", "selfaddr"}
 
 Senders ==
     {[caller |-> "alice", via |-> "direct", through |-> "none", auth |-> au] : au \in {{"alice"}, {"bob"}, {}, {"alice", "bob"}}}
@@ -50,14 +51,22 @@ Acts(s) ==
       chain |-> c, addr |-> d, payload |-> p] :
         x \in Senders, c \in Chains, d \in Addrs, p \in DOMAIN Payloads}
     \cup RepeatActs
+    \cup {[name |-> "HookOpenWindow"]}
 
 InitState == [Install(Install(Install(Install(Install(Blank("owner0", "op0", 0), "s1"), "s2"), "s3"), "s4"), "s5")
                  EXCEPT !.deployed = TRUE]
-Init == st = InitState
-Next == \E a \in Acts(st) : st' = Apply(st, a).post
+(* `win`: the Upgradable interface's migration window is open (instance-level ghost: not part of Gateway.tla's state,
+   not observable; set by the verification hook).  Every action is explored with the window closed AND open. *)
+WithWin(s, w) == [f \in DOMAIN s \cup {"win"} |-> IF f = "win" THEN w ELSE s[f]]
+ApplyW(s, a) ==
+    IF a.name = "HookOpenWindow"
+    THEN [ok |-> TRUE, why |-> "ok", fails |-> {}, free |-> FALSE, ret |-> "unit", ev |-> <<>>, post |-> [s EXCEPT !.win = TRUE]]
+    ELSE Apply(s, a)
+Init == st = WithWin(InitState, FALSE)
+Next == \E a \in Acts(st) : st' = ApplyW(st, a).post
 
 -----------------------------------------------------------------------------
-Step(P(_, _, _)) == \A a \in Acts(st) : P(st, a, Apply(st, a))
+Step(P(_, _, _)) == \A a \in Acts(st) : a.name # "HookOpenWindow" => P(st, a, ApplyW(st, a))
 Announce(s, a, r) ==
     r.ok => /\ Len(r.ev) = (IF "times" \in DOMAIN a THEN a.times ELSE 1)
             /\ \A i \in DOMAIN r.ev : r.ev[i] = [k |-> "contract_called", caller |-> a.caller, chain |-> a.chain, addr |-> a.addr,
@@ -78,7 +87,7 @@ Inst == [module |-> "Gateway", Sets |-> Sets, Keys |-> Keys, Msgs |-> Msgs, Cap 
          scale |-> [Q |-> "1", Qt |-> "1", t0 |-> 1000000]]
 ASSUME PrintT(<<"INST", ToJson(Inst)>>)
 Dump == \A a \in Acts(st) :
-    LET r == Apply(st, a) IN
+    LET r == ApplyW(st, a) IN
     PrintT(<<"EDGE", ToJson([pre |-> st, act |-> a,
                              exp |-> [ok |-> r.ok, why |-> r.why, fails |-> r.fails, free |-> r.free,
                                       ret |-> r.ret, ev |-> r.ev],
